@@ -377,7 +377,7 @@ def structural_replay(txt, params):
 
 def main():
     tier = core.tier()
-    chk = core.Check(PROP, "other",
+    chk = core.Check(PROP, "translation_validation",
                      "accepted LFRic colouring/OpenMP/OpenACC sequences on synthesised kernels; the emitted PSy layer is "
                      "executed with summarised loops; for every parallel loop z3 decides whether two distinct "
                      "iterations can write one element of a written field under dofmap axioms (colour / "
